@@ -483,3 +483,90 @@ def fingerprint(obj):
     if isinstance(obj, np.random.RandomState):
         return ('rs', digest(obj))
     return ('val', repr(canon(obj)))
+
+
+# ----------------------------------------------------------------------------
+# pristine process: reference computations that no state of this process can reach
+# ----------------------------------------------------------------------------
+
+class Pristine:
+    """A child process forked at the start of a run (right after the library was freshly
+    imported) that never executes library code itself: for every request it forks a
+    grandchild, which imports the named function, calls it and sends the (picklable) result
+    back.  A reference computed this way cannot be influenced by class-level or module-level
+    state that the live objects of the run have touched since - and requests cannot influence
+    each other."""
+
+    def __init__(self):
+        import pickle
+        r1, w1 = os.pipe()
+        r2, w2 = os.pipe()
+        pid = os.fork()
+        if pid == 0:
+            try:
+                os.close(w1)
+                os.close(r2)
+                fin, fout = os.fdopen(r1, 'rb'), os.fdopen(w2, 'wb')
+                while True:
+                    try:
+                        msg = pickle.load(fin)
+                    except EOFError:
+                        break
+                    if msg is None:
+                        break
+                    ra, wa = os.pipe()
+                    gpid = os.fork()
+                    if gpid == 0:
+                        try:
+                            os.close(ra)
+                            try:
+                                import importlib
+                                mod = importlib.import_module(msg['module'])
+                                res = ('ok', getattr(mod, msg['function'])(*msg['args']))
+                            except BaseException as e:  # noqa: B902
+                                res = ('harness', repr(e))
+                            with os.fdopen(wa, 'wb') as f:
+                                pickle.dump(res, f)
+                        finally:
+                            os._exit(0)
+                    os.close(wa)
+                    with os.fdopen(ra, 'rb') as f:
+                        try:
+                            data = f.read()
+                        except Exception:
+                            data = b''
+                    os.waitpid(gpid, 0)
+                    if not data:
+                        data = pickle.dumps(('harness', 'grandchild died'))
+                    fout.write(len(data).to_bytes(8, 'big') + data)
+                    fout.flush()
+            finally:
+                os._exit(0)
+        os.close(r1)
+        os.close(w2)
+        self.pid = pid
+        self.fout, self.fin = os.fdopen(w1, 'wb'), os.fdopen(r2, 'rb')
+
+    def call(self, module, function, *args):
+        import pickle
+        pickle.dump({'module': module, 'function': function, 'args': args}, self.fout)
+        self.fout.flush()
+        n = int.from_bytes(self.fin.read(8), 'big')
+        status, value = pickle.loads(self.fin.read(n))
+        if status != 'ok':
+            raise RuntimeError('pristine process failed: %s' % (value,))
+        return value
+
+    def close(self):
+        import pickle
+        try:
+            pickle.dump(None, self.fout)
+            self.fout.flush()
+            self.fout.close()
+            self.fin.close()
+        except Exception:
+            pass
+        try:
+            os.waitpid(self.pid, 0)
+        except Exception:
+            pass
